@@ -181,6 +181,9 @@ def tlc_trace(name, tla, cfg, trace_file, timeout=1800, xmx="6g"):
     t0 = time.time()
     rc, out = sh(cmd, timeout=timeout, cwd=d, env={"TRACE": trace_file})
     shutil.rmtree(meta, ignore_errors=True)
+    if ("Java ran out of memory" in out or "OutOfMemoryError" in out) and xmx != "24g":
+        log(f"TLC ran out of memory ({xmx}) on {os.path.basename(trace_file)}: retrying with 24g")
+        return tlc_trace(name, tla, cfg, trace_file, timeout=timeout, xmx="24g")
     if rc == 124:
         raise ToolError(f"TLC timed out validating {trace_file}")
     r = parse_tlc(out)
